@@ -37,7 +37,7 @@ META = dict(
               'als and for the dominance of the solve call over the per-angle calls; '
               'symbolic 2 x 2 matrix algebra (modulo cos^2 + sin^2 = 1) of the sphere'
               ' limit through _run_tmat / raw_scat_matrs / raw_fields'
-              "; sibling cross-check of the constructors' size guards against Sphere's, size guard of the hand-off evaluated per size (each size at zero and at infinity, the others in range); lens-integrand agreement and parity rules shared with C08 / C05; acceptance table evaluated with the uniformity tests as atoms (layered spheres refused by can_handle and by the hand-off); orientation hand-off per guard assignment: axis-direction equality modulo 360 (sign / half-turn forms) and interval evaluation with guard refinement against the solver's angle range; failure-flag protocol of the compiled code (cleared on entry, tested after every call that may set it, raised in Python)",
+              "; sibling cross-check of the constructors' size guards against Sphere's, size guard of the hand-off evaluated per size (each size at zero and at infinity, the others in range); lens-integrand agreement and parity rules shared with C08 / C05; acceptance table evaluated with the uniformity tests as atoms (layered spheres refused by can_handle and by the hand-off); orientation hand-off per guard assignment: axis-direction equality modulo 360 (sign / half-turn forms) and interval evaluation with guard refinement against the solver; AMPL particle-frame azimuths from the two-argument arctangent (statement rule)'s angle range; failure-flag protocol of the compiled code (cleared on entry, tested after every call that may set it, raised in Python)",
     level_text='Exhaustive over the program units reachable from the f2py entry '
                'points (tmatrix_f: ampld; mie_f: every routine the wrappers '
                'call): every STOP / EXIT reachable from Python is enumerated and '
